@@ -411,7 +411,7 @@ def kde_backed(uni):
 
 def schema_problems(model, case, out, n, draws=None):
     """the schema clause of C01 on one real sample -> list of (what, observed).  `what` is part of the failure class:
-    an infinite cell of a GaussianKDE-backed column whose normal draw is beyond +-5.1 is the class
+    an infinite cell of a GaussianKDE-backed column whose score Phi(z) is within float32-eps of 0 (-inf) / 1 (+inf) is the class
     `kde-tail-infinite` (GaussianKDE.percent_point returns +-inf for u within float32-eps of 0 or 1); any other
     non-finite cell is `nonfinite` / `nan`."""
     probs = []
@@ -437,7 +437,13 @@ def schema_problems(model, case, out, n, draws=None):
             rows = np.where(np.isinf(v))[0]
             unis = list(model.univariates)
             zs = None if draws is None or draws.shape != (len(v), len(labels)) else draws[rows, j]
-            tail = zs is not None and j < len(unis) and kde_backed(unis[j]) and bool(np.all(np.abs(zs) > 5.1))
+            tail = False
+            if zs is not None and j < len(unis) and kde_backed(unis[j]):
+                # exactly the recorded situation: u = Phi(z) beyond GaussianKDE.percent_point's EPSILON cut
+                # (float32 eps), -inf on the low side and +inf on the high side
+                eps32 = float(np.finfo(np.float32).eps)
+                us = st.norm.cdf(zs)
+                tail = bool(np.all(((us <= eps32) & (v[rows] == -np.inf)) | ((us >= 1.0 - eps32) & (v[rows] == np.inf))))
             probs.append(('kde-tail-infinite' if tail else 'nonfinite',
                           {'column': repr(lab), 'rows': rows[:5].tolist(), 'values': v[rows[:5]].tolist(),
                            'normal_draws': None if zs is None else zs[:5].tolist(),
@@ -601,6 +607,11 @@ def tie_case(ctx, lean, case, ns, note):
         first = False
         # schema of the real output
         probs = schema_problems(model, case, out, n, draws)
+        if any(w == 'kde-tail-infinite' for w, _ in probs):
+            # the recorded finding (known_findings.json) met by chance in the tie: reported by the search under its
+            # own class, not as a broken correspondence
+            ctx.count('tie-met-kde-tail-infinite')
+            probs = [pr for pr in probs if pr[0] != 'kde-tail-infinite']
         if probs:
             note('corr:schema', {'problems': probs[:3], 'case': brief(case, n=n)})
         # plan
